@@ -16,7 +16,11 @@ struct C09 : Prop {
 		       "what 'current' means: NODE_LOST / NODE_NEW (re-login at another address) and CS_DRIVE_MANUAL reports that change function bits and direction. Oracle: "
 		       "reference model configuration -> expected messages (board's current address, accessory number / port / DCC address, aspect value, speed byte with the "
 		       "direction kept at speed 0, function-group bits with the rest of the group preserved); return 0 => exactly those messages on the wire after flush and the "
-		       "tracked state as predicted; return 1 => no new downlink message and bidib_get_state unchanged. non-trivial = >=1 command addressed a re-logged-in board "
+		       "tracked state as predicted; return 1 => no new downlink message and bidib_get_state unchanged. Concurrent phases: 2-4 tasks issue train commands on one train at once "
+		       "(the downlink must be the output of ONE serial order of the commands: search over assignments of wire messages to pending commands); in four of ten such "
+		       "phases the command station reports manual drive commands for that train meanwhile: then one total order of wire messages and uplink frames must exist that "
+		       "respects real-time precedence (a report takes effect between delivery and known-processed, a command between invocation and return / emission), "
+		       "explains every message on the state reached and ends in the state bidib_get_state reports. non-trivial = >=1 command addressed a re-logged-in board "
 		       "or used function bits changed by the bus, and >=1 command was refused; distinct = (shape, trace).";
 	}
 	bool conc_heavy = false;      // C10 delegates its command-atomicity sub-workload to this generator + oracle
@@ -66,6 +70,23 @@ struct C09 : Prop {
 					tasks.push(ops);
 				}
 				ph.set("tasks", tasks); ph.set("conc", true);
+				// four concurrent phases in ten: the command station reports manual drive commands for the same train meanwhile (function bits,
+				// speed and direction change behind the commands' backs): commands AND reports must then be explained by one serial order
+				if (r.chance(400)) {
+					const cfg::Board *tb = w.board(to_id);
+					if (tb) {
+						J ev = J::arr();
+						for (int k = 0, n = (int) r.range(1, 3); k < n; k++) {
+							J e = J::obj(); e.set("at_us", (int) r.range(0, 3) * 5000); e.set("node", pc::jaddr(tb->addr)); e.set("type", (int) MSG_CS_DRIVE_MANUAL);
+							e.set("data", pc::jarr({t.addrl, t.addrh, 3, (int) r.below(64), (int) r.byte(), (int) r.below(32), (int) r.byte(), (int) r.byte(), (int) r.byte()}));
+							ev.push(e);
+						}
+						ph.set("bus", ev); ph.set("conc_fb", true);
+						J tasks2 = J::arr();
+						for (size_t k = 0; k < tasks.size(); k++) { J ops = J::arr(); if (r.coin()) { J sl = J::obj(); sl.set("op", "sleep"); sl.set("us", (int) r.range(0, 3) * 5000); ops.push(sl); } for (size_t q = 0; q < tasks[k].size(); q++) ops.push(tasks[k][q]); tasks2.push(ops); }
+						ph.set("tasks", tasks2);
+					}
+				}
 			} else if (x < 72) {
 				J pre = J::arr(); J op = api::hl_op(r, ids);
 				if (op.gets("fn") == "set_train_peripheral") { J iv = J::arr(); iv.push((int) r.below(2)); op.set("i", iv); }
@@ -119,7 +140,7 @@ struct C09 : Prop {
 	void attach(Engine &e) override {
 		model = sm::Model(); model.init(cfg::from_json(e.plan["world"]));
 		wire_pos = frame_pos = 0; have_last = false; armed = false; held_by_budget = accepted = refused = relogin_cmds = manual_bits_used = state_checks = 0; relogged.clear(); manual_trains.clear();
-		on_wire = nullptr; conc_phases = conc_overlaps = conc_msgs = 0;
+		on_wire = nullptr; conc_phases = conc_overlaps = conc_msgs = 0; fb_phases = fb_ambiguous = fb_budget_exhausted = fb_nodes = 0;
 	}
 	void before_stop(Engine &, int) override { armed = false; }
 
@@ -397,8 +418,103 @@ struct C09 : Prop {
 			e.violate("WRONG_MESSAGES", "concurrent train commands", std::to_string(cmds.size()) + " accepted concurrent commands but only " + std::to_string(msgs.size()) + " messages reached the wire");
 	}
 
+	// Concurrent commands AND feedback for the same train. The receiver applies a report somewhere between its delivery and the moment it
+	// is known processed; a command takes effect (reads the state, builds its message, updates the state - one critical section) somewhere
+	// between its invocation and its return / the emission of its message. Search ONE total order of wire messages and uplink frames that
+	// (a) keeps the wire order, the frame order and each task's program order, (b) puts X before Y whenever X was over before Y began,
+	// (c) makes every wire message the expected message of its command on the state the order has produced so far, and (d) ends in the
+	// state bidib_get_state reports. None exists = a lost update (or a torn one) between a command and the receiver.
+	uint64_t fb_phases = 0, fb_ambiguous = 0, fb_budget_exhausted = 0, fb_nodes = 0;
+	// (orientation: when the listings of a train disagree any reported one is acceptable)
+	static std::string diff_state(J got, const sm::Model &m) {
+		J want = m.to_json();
+		for (auto &kv : m.tr) if (kv.second.possible_orient.size() > 1)
+			for (J *side : {&got, &want}) { J &t = const_cast<J &>((*side)["trains"]); for (auto &x : t.o) if (x.first == kv.first) { J n = J::obj(); for (auto &f : x.second.o) if (f.first != "orient") n.set(f.first, f.second); x.second = n; } }
+		return sm::diff(got, want);
+	}
+	void judge_concurrent_fb(Engine &e, int s, int p) {
+		std::map<int, std::vector<OpRec *>> by_task;
+		for (auto &o : e.oplog) if (o.session == s && o.phase == p && o.op->gets("op") == "hl") by_task[o.task].push_back(&o);
+		conc_phases++; fb_phases++;
+		for (auto &kv : by_task) for (auto *o : kv.second) {
+			Exp x = expect(*o->op);
+			if (x.ret >= 0 && (x.ret == 1) != (o->ret == 1))
+				e.violate(x.ret == 0 ? "COMMAND_REFUSED" : "COMMAND_ACCEPTED", o->op->gets("fn"), "concurrent bidib_" + o->op->gets("fn") + (*o->op)["s"].dump() + (*o->op)["i"].dump() + " returned " + std::to_string(o->ret) + ", expected " + std::to_string(x.ret) + " (" + x.why + ")");
+			if (o->ret == 1) refused++; else accepted++;
+		}
+		std::vector<int> tasks; std::map<int, std::vector<OpRec *>> acc;
+		for (auto &kv : by_task) { tasks.push_back(kv.first); for (auto *o : kv.second) if (o->ret == 0) acc[kv.first].push_back(o); }
+		size_t ncmds = 0; for (auto &kv : acc) ncmds += kv.second.size();
+		std::vector<const bus::WireRec *> W; for (size_t i = wire_pos; i < e.bus.wire.size(); i++) W.push_back(&e.bus.wire[i]);
+		std::vector<const bus::UpFrame *> F; size_t fend = frame_pos;
+		for (size_t f = frame_pos; f < e.bus.done.size() && e.bus.done[f].processed; f++) { fend = f + 1; if (!e.bus.done[f].corrupted && !e.bus.done[f].msgs.empty()) F.push_back(&e.bus.done[f]); }
+		conc_msgs += W.size();
+		if (W.size() != ncmds) {
+			e.violate("WRONG_MESSAGES", "concurrent train commands", std::to_string(ncmds) + " accepted concurrent commands put " + std::to_string(W.size()) + " messages on the wire");
+			return;
+		}
+		J got = lib_state();
+		sm::Model start = model, found;
+		bool ok = false, ambiguous = false; size_t deepest = 0; std::string deepest_why;
+		uint64_t nodes = 0; const uint64_t NODE_BUDGET = 30000;
+		std::function<void(size_t, size_t, std::vector<size_t> &, uint64_t, const sm::Model &)> dfs = [&](size_t i, size_t f, std::vector<size_t> &pos, uint64_t max_inv, const sm::Model &cur) {
+			if (ok || ++nodes > NODE_BUDGET) return;
+			if (i == W.size() && f == F.size()) {
+				std::string d = diff_state(got, cur);
+				if (d.empty()) { ok = true; found = cur; }
+				else if (i + f >= deepest) { deepest = i + f + 1; deepest_why = "the order explains the downlink but ends in another state than bidib_get_state reports: " + d; }
+				return;
+			}
+			int options = 0;
+			// next: the frame
+			if (f < F.size() && max_inv < F[f]->processed_step && (i == W.size() || F[f]->last_read_step < W[i]->step)) {
+				options++;
+				sm::Model nx = cur; for (auto &m : F[f]->msgs) nx.apply_uplink(m);
+				dfs(i, f + 1, pos, max_inv, nx);
+				if (ok) return;
+			}
+			// next: the wire message, as the next command of some task
+			if (i < W.size()) {
+				for (size_t t = 0; t < tasks.size() && !ok; t++) {
+					auto &lst = acc[tasks[t]];
+					if (pos[t] >= lst.size()) continue;
+					OpRec *o = lst[pos[t]];
+					if (f > 0 && !(F[f - 1]->last_read_step < std::min(W[i]->step, o->ret_step))) continue;     // a frame placed before it was delivered only after the command was over
+					if (f < F.size() && !(o->inv_step < F[f]->processed_step)) continue;                        // a frame placed after it was over before the command began
+					sm::Model keep = model; model = cur; Exp x = expect(*o->op); model = keep;
+					bool same = false;
+					const ref::Msg &m = W[i]->msg;
+					if (x.ret == 0 && x.msgs.size() == 1) {
+						if (x.estop && m.type == MSG_CS_DRIVE && m.data.size() == 9) { auto a = m.data, b = x.msgs[0].data; a[4] &= 0x7F; b[4] &= 0x7F; same = a == b && m.addr == x.msgs[0].addr; }
+						else same = pc::msg_key(m) == pc::msg_key(x.msgs[0]);
+					}
+					if (!same) { if (i + f >= deepest) { deepest = i + f + 1; deepest_why = "message #" + std::to_string(i) + " " + pc::msg_key(m) + " is not what " + o->op->gets("fn") + (*o->op)["s"].dump() + (*o->op)["i"].dump() + " sends on the state reached (" + (x.msgs.empty() ? std::string("-") : pc::msg_key(x.msgs[0])) + ")"; } continue; }
+					options++;
+					sm::Model nx = cur; nx.apply_downlink(m);
+					pos[t]++;
+					dfs(i + 1, f, pos, std::max(max_inv, o->inv_step), nx);
+					pos[t]--;
+				}
+			}
+			if (options > 1) ambiguous = true;
+		};
+		std::vector<size_t> pos(tasks.size(), 0);
+		dfs(0, 0, pos, 0, start);
+		fb_nodes += nodes;
+		if (ambiguous) fb_ambiguous++;
+		if (!ok && nodes > NODE_BUDGET) { fb_budget_exhausted++; return; }      // not judged (counted); the plain fold below still compares the final state
+		if (!ok) {
+			std::string d = "no single order of the " + std::to_string(ncmds) + " concurrent commands and the " + std::to_string(F.size()) + " uplink frames of the phase (manual drive reports, acknowledgements) that respects what was over before what explains both the downlink and the final state; deepest attempt: " + deepest_why;
+			e.violate("NOT_SERIALIZABLE", "concurrent train commands and drive reports", d);
+			return;
+		}
+		for (auto *fr : F) for (auto &m : fr->msgs) if (m.type == MSG_CS_DRIVE_MANUAL && m.data.size() >= 9) { const cfg::Train *t = model.train_by_addr(m.data[0], m.data[1]); if (t) manual_trains.insert(t->id); }
+		model = found; wire_pos = e.bus.wire.size(); frame_pos = fend;
+	}
+
 	void at_quiescence(Engine &e, int s, int p) override {
-		if (armed && e.plan["sessions"][(size_t) s]["phases"][(size_t) p].getb("conc")) judge_concurrent(e, s, p);
+		if (armed && e.plan["sessions"][(size_t) s]["phases"][(size_t) p].getb("conc_fb")) judge_concurrent_fb(e, s, p);
+		else if (armed && e.plan["sessions"][(size_t) s]["phases"][(size_t) p].getb("conc")) judge_concurrent(e, s, p);
 		ingest(e);
 		if (!e.plan["sessions"][(size_t) s]["phases"][(size_t) p].getb("check")) return;
 		J got = lib_state();
@@ -420,6 +536,7 @@ struct C09 : Prop {
 		J p = J::obj(); p.set("commands_accepted", (long long) accepted); p.set("commands_refused", (long long) refused); p.set("commands_to_relogged_board", (long long) relogin_cmds);
 		p.set("function_commands_after_manual_report", (long long) manual_bits_used); p.set("state_comparisons", (long long) state_checks); p.set("commands_held_back_by_the_response_budget", (long long) held_by_budget);
 		p.set("concurrent_command_phases", (long long) conc_phases); p.set("concurrent_phases_with_overlapping_calls", (long long) conc_overlaps); p.set("concurrent_messages_matched", (long long) conc_msgs);
+		p.set("concurrent_phases_with_drive_reports", (long long) fb_phases); p.set("concurrent_phases_with_drive_reports_more_than_one_order_possible", (long long) fb_ambiguous); if (fb_budget_exhausted) p.set("serial_order_search_budget_exhausted", (long long) fb_budget_exhausted); p.set("serial_order_search_nodes", (long long) fb_nodes);
 		f.set("probes", p);
 	}
 };
